@@ -239,6 +239,8 @@ func runC01(e *Env) {
 	checkGroupOrder(e, m)
 	checkNumOrigin(e, m)
 	checkRetContract(e, m, "E1.retc")
+	checkRetLiterals(e, m, "E1.retc")
+	checkPatcherBridgeKinds(e, m, "E1.retc")
 	nEntries, nAcc := 0, 0
 	for _, name := range m.variants() {
 		c := newWctx(e, m, name)
@@ -438,16 +440,39 @@ func checkGroupOrder(e *Env, m *e1Model) {
 	}
 	// SyscallGroup.Assemble: entries are emitted by a range over the list returned by toSyscallsWithConditions
 	ts := p.Func(load.PkgRoot, "SyscallGroup.toSyscallsWithConditions")
-	swc := p.Func(load.PkgRoot, "SyscallWithConditions.Assemble")
-	if ts == nil || swc == nil {
-		r.Unknown("E1.order", "SyscallGroup.Assemble/entries", "", "helper functions not found")
+	if ts == nil {
+		r.Unknown("E1.order", "SyscallGroup.Assemble/entries", "", "the function that builds the entry list was not found")
 		return
 	}
-	for _, c := range callsToFn(m.fragFn, swc) {
+	nEntryCalls := 0
+	for _, ci := range flow.Calls(m.fragFn) {
+		c, ok := ci.(*ssa.Call)
+		if !ok || flow.Callee(c) == nil || !m.b.IsEmitter(flow.Callee(c)) {
+			continue
+		}
+		if recv := flow.Callee(c).Signature.Recv(); recv != nil {
+			if pt, ok := recv.Type().(*types.Pointer); ok && isNamed(pt.Elem(), load.PkgRoot, "Program") {
+				continue // builder method
+			}
+		}
+		takesProgram := false
+		for _, a := range c.Call.Args {
+			if pt, ok := a.Type().Underlying().(*types.Pointer); ok && isNamed(pt.Elem(), load.PkgRoot, "Program") {
+				takesProgram = true
+			}
+		}
+		if !takesProgram || len(c.Call.Args) == 0 {
+			continue // e.g. the constructor of the program object
+		}
+		nEntryCalls++
 		o := res.Of(c.Call.Args[0], nil, c)
 		good := o.Kind == origin.KElem && o.Args[1].Kind == origin.KRangeKey && o.Args[0].Kind == origin.KCall && o.Args[0].Callee == ts && o.Args[0].Index == 0
 		r.Check(good, "E1.order", "SyscallGroup.Assemble/entries-in-list-order", p.Pos(c.Pos()), "entries are emitted by a range over the validated list, in its order", "entries are not emitted in the order of the list built from the group ("+o.String()+")")
+		// every element gets its entry: the call is not under any condition besides the loop's
+		r.Check(noCondInsideLoop(c.Block()), "E1.nodrop", "SyscallGroup.Assemble/every-entry-emitted", p.Pos(c.Pos()), "every element of the entry list is emitted (no condition besides the range loop)", "an entry of the validated list is emitted only under an additional condition: a listed syscall can be left out of the program silently")
 	}
+	r.Check(nEntryCalls >= 1, "E1.order", "SyscallGroup.Assemble/entry-emission-found", p.Pos(m.fragFn.Pos()), "entry emission call found", "no call that emits the entries of the group was found")
+	checkNoDrop(e, m, ts)
 	// toSyscallsWithConditions: the result accumulator only grows by append (order of g.Names, then conditional names)
 	for _, ret := range flow.Returns(ts) {
 		rs := flow.RetResults(ret)
@@ -457,6 +482,191 @@ func checkGroupOrder(e *Env, m *e1Model) {
 		apps, ok := accumulatorAppends(rs[0])
 		r.Check(ok && len(apps) >= 1, "E1.order", "toSyscallsWithConditions/append-only", p.Pos(ret.Pos()), "the entry list only grows by append in source order of the names", "the entry list is built other than by appending in name order (sorted, prepended or rewritten)")
 	}
+}
+
+// noCondInsideLoop: within its innermost enclosing range loop, block b is executed on every iteration (the only
+// dominating condition that lies inside the loop is the loop's own header test).
+func noCondInsideLoop(b *ssa.BasicBlock) bool {
+	// innermost loop header dominating b
+	var header *ssa.BasicBlock
+	for d := b; d != nil; d = d.Idom() {
+		isHeader := false
+		for _, pr := range d.Preds {
+			if d.Dominates(pr) {
+				isHeader = true
+			}
+		}
+		if isHeader && d != b {
+			header = d
+			break
+		}
+	}
+	if header == nil {
+		return false
+	}
+	for _, cd := range flow.DomConds(b) {
+		blk := cd.At.Block()
+		if blk == header {
+			continue
+		}
+		if header.Dominates(blk) {
+			return false // a condition inside the loop guards b
+		}
+	}
+	return true
+}
+
+// checkNoDrop (E1.nodrop): a group that lists names never compiles to nothing, and every plain name ends in
+// exactly one of {entry, problem}.
+func checkNoDrop(e *Env, m *e1Model, ts *ssa.Function) {
+	r := e.R
+	p := m.p
+	res := origin.NewResolver()
+	// (a) success returns of the fragment function
+	for _, ret := range flow.Returns(m.fragFn) {
+		rs := flow.RetResults(ret)
+		if len(rs) != 2 || flow.KnownNonNilError(rs[1], ret.Block()) {
+			continue
+		}
+		if ex, ok := rs[0].(*ssa.Extract); ok {
+			if c, ok := ex.Tuple.(*ssa.Call); ok && flow.Callee(c) != nil && flow.Callee(c).Name() == "Assemble" {
+				continue // the program object's result
+			}
+		}
+		if !flow.IsNilConst(rs[0]) || !flow.IsNilConst(rs[1]) {
+			r.Bad("E1.nodrop", "SyscallGroup.Assemble/success-return", p.Pos(ret.Pos()), "a success return that is neither the assembled program object nor the empty fragment")
+			continue
+		}
+		// (nil, nil): only when the group lists nothing
+		names, conds := false, false
+		other := 0
+		for _, cd := range flow.DomConds(ret.Block()) {
+			bo, ok := cd.V.(*ssa.BinOp)
+			if !ok {
+				other++
+				continue
+			}
+			lc, ok := bo.X.(*ssa.Call)
+			k, isK := flow.ConstInt(bo.Y)
+			if !ok || !isK || k != 0 {
+				other++
+				continue
+			}
+			if bi, ok := lc.Call.Value.(*ssa.Builtin); !ok || bi.Name() != "len" {
+				other++
+				continue
+			}
+			zero := (bo.Op == token.EQL && cd.Pol) || (bo.Op == token.NEQ && !cd.Pol) || (bo.Op == token.GTR && !cd.Pol)
+			o := res.Of(lc.Call.Args[0], nil, lc)
+			switch {
+			case zero && o.Kind == origin.KField && o.Field.Name() == "Names":
+				names = true
+			case zero && o.Kind == origin.KField && o.Field.Name() == "NamesWithCondtions":
+				conds = true
+			default:
+				other++
+			}
+		}
+		r.Check(names && conds, "E1.nodrop", "SyscallGroup.Assemble/empty-fragment-only-for-empty-group", p.Pos(ret.Pos()),
+			"the empty fragment is returned only for a group that lists no names at all",
+			fmt.Sprintf("a group can compile to nothing although it lists syscalls (empty fragment returned without `len(Names)==0 && len(NamesWithCondtions)==0`: names-empty=%v conditional-names-empty=%v): its syscalls fall through to later groups or the default action, so the first matching group no longer decides", names, conds))
+	}
+	// (b) plain names: exactly one outcome per name
+	var header *ssa.BasicBlock
+	for _, b := range ts.Blocks {
+		ifi, ok := flow.LastIf(b)
+		if !ok {
+			continue
+		}
+		bo, ok := ifi.Cond.(*ssa.BinOp)
+		if !ok || bo.Op != token.LSS {
+			continue
+		}
+		lc, ok := bo.Y.(*ssa.Call)
+		if !ok {
+			continue
+		}
+		if bi, ok := lc.Call.Value.(*ssa.Builtin); !ok || bi.Name() != "len" {
+			continue
+		}
+		if strings.HasSuffix(res.Of(lc.Call.Args[0], nil, lc).String(), ".Names") {
+			header = b
+		}
+	}
+	if header == nil {
+		r.Unknown("E1.nodrop", "toSyscallsWithConditions/names-loop", p.Pos(ts.Pos()), "loop over the plain names not found")
+		return
+	}
+	min, max := outcomesPerIteration(ts, header, func(in ssa.Instruction) bool {
+		c, ok := in.(*ssa.Call)
+		if !ok {
+			return false
+		}
+		app := isAppend(c)
+		if app == nil {
+			return false
+		}
+		st, _ := app.Type().Underlying().(*types.Slice)
+		return st != nil && (types.Identical(st.Elem(), types.Typ[types.String]) || isNamed(st.Elem(), load.PkgRoot, "SyscallWithConditions"))
+	})
+	r.Check(min == 1 && max == 1, "E1.nodrop", "toSyscallsWithConditions/one-outcome-per-plain-name", p.Pos(header.Instrs[0].Pos()),
+		"every plain name ends in exactly one of {entry appended, problem recorded}",
+		fmt.Sprintf("a plain name can end in %d..%d outcomes (want exactly 1): a listed name can be skipped silently or entered twice", min, max))
+}
+
+// outcomesPerIteration counts, over all paths through one iteration of the loop with the given header, how many
+// instructions satisfying isOutcome are executed (min, max).
+func outcomesPerIteration(fn *ssa.Function, header *ssa.BasicBlock, isOutcome func(ssa.Instruction) bool) (int, int) {
+	g := flow.G(fn)
+	body := header.Succs[0]
+	term := map[*ssa.BasicBlock]int{}
+	for _, b := range fn.Blocks {
+		if !g.Live(b) || !g.Dominates(body, b) {
+			continue
+		}
+		for _, in := range b.Instrs {
+			if isOutcome(in) {
+				term[b]++
+			}
+		}
+	}
+	type mm struct{ min, max int }
+	memo := map[*ssa.BasicBlock]mm{}
+	var walk func(b *ssa.BasicBlock, depth int) mm
+	walk = func(b *ssa.BasicBlock, depth int) mm {
+		if b == header {
+			return mm{0, 0}
+		}
+		if v, ok := memo[b]; ok {
+			return v
+		}
+		if depth > 200 {
+			return mm{0, 99}
+		}
+		memo[b] = mm{0, 99}
+		res := mm{1 << 30, -1}
+		for _, s := range g.Succs(b) {
+			if !g.Dominates(body, s) && s != header {
+				continue
+			}
+			v := walk(s, depth+1)
+			if v.min < res.min {
+				res.min = v.min
+			}
+			if v.max > res.max {
+				res.max = v.max
+			}
+		}
+		if res.max < 0 {
+			res = mm{0, 0}
+		}
+		res.min += term[b]
+		res.max += term[b]
+		memo[b] = res
+		return res
+	}
+	v := walk(body, 0)
+	return v.min, v.max
 }
 
 // checkNumOrigin (E1.num): SyscallWithConditions.Num is always uint32(table[name] | mask) under `found`.
@@ -597,6 +807,39 @@ func checkRetContract(e *Env, m *e1Model, rule string) {
 		"the return builder does not produce `action | EPERM` exactly for errno: "+detail)
 }
 
+// checkRetLiterals: every RetConstant built anywhere in the package gets its value from the return builder
+// (whose contract is checked) or is the constant ERRNO|ENOSYS literal of the x32 guard.
+func checkRetLiterals(e *Env, m *e1Model, rule string) {
+	r := e.R
+	p := m.p
+	or := e.Oracle()
+	retFn := p.Func(load.PkgRoot, "Program.Ret")
+	n := 0
+	for _, fn := range p.SrcFuncs(load.PkgRoot) {
+		for _, b := range fn.Blocks {
+			for _, in := range b.Instrs {
+				st, ok := in.(*ssa.Store)
+				if !ok {
+					continue
+				}
+				fa, ok := st.Addr.(*ssa.FieldAddr)
+				if !ok || !isNamed(fa.X.Type().Underlying().(*types.Pointer).Elem(), "golang.org/x/net/bpf", "RetConstant") {
+					continue
+				}
+				n++
+				if fn == retFn {
+					continue
+				}
+				k, isK := flow.ConstInt(st.Val)
+				good := isK && uint64(k) == or.Consts["SECCOMP_RET_ERRNO"]|or.Consts["ENOSYS"]
+				r.Check(good, rule, load.FuncName(fn)+"/return-literal", p.Pos(st.Pos()), "the x32 guard's constant ERRNO|ENOSYS",
+					"a return instruction is built outside the return builder with a value that is not the x32 guard's constant: an errno action would not carry EPERM there (and the return set is no longer closed)")
+			}
+		}
+	}
+	r.Floor(rule+"(return literals)", n, 2)
+}
+
 // condsOfEdge: conditions established by b's own dominating branch when b is a branch arm.
 func condsOfEdge(b *ssa.BasicBlock) []flow.Cond {
 	return flow.DomConds(b)
@@ -670,7 +913,7 @@ func runC02(e *Env) {
 	p := m.p
 	name := "x86_64=true,short=true"
 	c := newWctx(e, m, name)
-	swc := p.Func(load.PkgRoot, "SyscallWithConditions.Assemble")
+	swc := m.condEmitter()
 	// iteration starts by (op, last, world)
 	type tkey struct {
 		op    string
@@ -789,55 +1032,66 @@ func clsName(v int, bit bool) string {
 	return "="
 }
 
-// runTemplate follows one condition's lowering for a class and reports "match", "noMatch" or a failure description.
+// runTemplate follows one condition's lowering for a class over ALL layout alternatives (an emission that
+// happens only under some untracked condition yields several paths) and reports the set of outcomes:
+// "match", "noMatch" or a failure description; the second result explains a disagreement.
 func (c *wctx) runTemplate(start *emit.WNode, swc *ssa.Function, hi, lo int, bit bool) (string, string) {
-	n := start
-	acc := ""
-	for steps := 0; steps < 40; steps++ {
+	outcomes := map[string]bool{}
+	var walk func(n *emit.WNode, acc string, steps int)
+	walk = func(n *emit.WNode, acc string, steps int) {
+		if steps > 40 {
+			outcomes["no-decision-after-40-steps"] = true
+			return
+		}
 		if n == nil {
-			return "leaves-the-program", ""
+			outcomes["leaves-the-program"] = true
+			return
 		}
 		cl := c.cls[n]
 		if steps > 0 && n.Emit != nil && (n.Emit.IterStart || !n.Emit.InCond) {
-			// left the template by falling through: that is "this condition holds, continue" only if it is the next condition
 			if n.Emit.IterStart {
-				return "match", " (by fall-through)"
+				outcomes["match"] = true // fell through into the next condition
+			} else {
+				outcomes["falls-out-of-the-condition"] = true
 			}
-			return "falls-out-of-the-condition", ""
+			return
 		}
 		switch cl.Kind {
 		case "ld_arg":
-			acc = cl.Word
-			nx := c.w.Next[n]
-			if len(nx) != 1 {
-				return "ambiguous-layout", ""
+			for _, nx := range c.w.Next[n] {
+				walk(nx, cl.Word, steps+1)
 			}
-			n = nx[0]
+			if len(c.w.Next[n]) == 0 {
+				outcomes["dead-end"] = true
+			}
 		case "jmp":
 			test := c.jt[cl.Cond]
 			var outcome, ok bool
 			switch {
 			case strings.HasPrefix(cl.Operand, "hi:"):
 				if acc != "hi" {
-					return "compares-hi-operand-with-" + acc + "-word", ""
+					outcomes["compares-the-operand's-high-word-with-the-argument's-"+acc+"-word"] = true
+					return
 				}
 				outcome, ok = evalTest(test, hi, hi, bit)
 			case strings.HasPrefix(cl.Operand, "lo:"):
 				if acc != "lo" {
-					return "compares-lo-operand-with-" + acc + "-word", ""
+					outcomes["compares-the-operand's-low-word-with-the-argument's-"+acc+"-word"] = true
+					return
 				}
 				outcome, ok = evalTest(test, lo, lo, bit)
 			default:
-				return "compares-with-" + cl.Operand, ""
+				outcomes["compares-with-"+cl.Operand] = true
+				return
 			}
 			if !ok {
-				return "test-" + test + "-not-decided-by-class", ""
+				outcomes["test-"+test+"-not-decided-by-the-class"] = true
+				return
 			}
 			kind := "false"
 			if outcome {
 				kind = "true"
 			}
-			// the label taken
 			var lab *emit.LabelVal
 			if n.Emit != nil && n.Emit.Jrec != nil {
 				if outcome {
@@ -847,38 +1101,49 @@ func (c *wctx) runTemplate(start *emit.WNode, swc *ssa.Function, hi, lo int, bit
 				}
 			}
 			if lab == nil {
-				return "jump-without-label", ""
+				outcomes["jump-without-label"] = true
+				return
 			}
 			if lab.Fn() == swc {
 				switch lab.Depth() {
 				case 2:
-					return "match", ""
+					outcomes["match"] = true
 				case 1:
-					return "noMatch", ""
+					outcomes["noMatch"] = true
 				default:
-					return "jumps-to-the-entry-exit-label", ""
+					outcomes["jumps-to-the-entry-exit-label"] = true
 				}
+				return
 			}
 			if lab.Fn() != nil && lab.Fn().Name() != "JmpIfTrue" {
-				// the action label (created by the group assembler), reached through the match phi of the last condition
-				return "match", ""
+				outcomes["match"] = true // the action label, through the match phi of the last condition
+				return
 			}
-			// internal fall-through label of JmpIfTrue: continue with the target
-			var ts []*emit.WNode
+			// internal fall-through label: continue with the target(s)
+			any := false
 			for _, ed := range c.w.Edges[n] {
 				if ed.Kind == kind {
-					ts = append(ts, ed.To)
+					any = true
+					walk(ed.To, acc, steps+1)
 				}
 			}
-			if len(ts) != 1 {
-				return "ambiguous-target", ""
+			if !any {
+				outcomes["no-target"] = true
 			}
-			n = ts[0]
 		default:
-			return "unexpected-" + cl.Kind + "-in-template", ""
+			outcomes["unexpected-"+cl.Kind+"-in-template"] = true
 		}
 	}
-	return "no-decision-after-40-steps", ""
+	walk(start, "", 0)
+	var list []string
+	for o := range outcomes {
+		list = append(list, o)
+	}
+	sort.Strings(list)
+	if len(list) == 1 {
+		return list[0], ""
+	}
+	return strings.Join(list, " or "), " (the emitted sequence differs between policies: some instruction of the lowering is emitted only conditionally)"
 }
 
 // checkWordOffsets: LdHi/LdLo offsets as affine forms per byte-order branch.
